@@ -92,7 +92,7 @@ def case_st(draw):
             form = draw(st.sampled_from(["scalar", "list", "slice"]))
             if op in ("ix", "isel"):
                 n = len(l)
-                idx[dd] = {"scalar": draw(st.integers(-n, n - 1)), "list": draw(st.lists(st.integers(0, n - 1), min_size=1, max_size=3)),
+                idx[dd] = {"scalar": draw(st.integers(-n, n - 1)), "list": draw(gen.position_list(n, 1, 3)),
                            "slice": ["slice", draw(st.sampled_from([None, 0, 1])), draw(st.sampled_from([None, 1, 2, -1])), None]}[form]
             else:
                 idx[dd] = {"scalar": draw(st.sampled_from(l)), "list": draw(st.lists(st.sampled_from(l), min_size=1, max_size=3)),
@@ -106,7 +106,7 @@ def case_st(draw):
         if draw(st.booleans()):
             p = {"indices": draw(st.lists(st.sampled_from(labs), min_size=1, max_size=4)), "indexing": "label"}
         else:
-            p = {"indices": draw(st.lists(st.integers(0, n - 1), min_size=1, max_size=4)), "indexing": "position"}
+            p = {"indices": draw(gen.position_list(n, 1, 4)), "indexing": "position"}
         p["by"] = draw(st.sampled_from(["name", "pos"]))
     elif op == "sort_axis":
         p = {"by": draw(st.sampled_from(["name", "pos"]))}
